@@ -83,4 +83,7 @@ def comp4 (name : String) : Option Op4 :=
   | "MUX21" => some fun a b c _ => spec4Or [spec4And [a, spec4Not c], spec4And [b, c]]
   | _ => none
 
+def prim8 (name : String) (a b c d : V3) : V3 := match comp8 name with | some f => f a b c d | none => default
+def prim4 (name : String) (a b c d : V2) : V2 := match comp4 name with | some f => f a b c d | none => default
+
 end KV
